@@ -329,23 +329,27 @@ type flatVar struct {
 }
 
 type fnCtx struct {
-	u        *unitCtx
-	info     *types.Info
-	names    map[types.Object]string
-	used     map[string]bool
-	partial  bool
-	nparts   int                   // number of partial operations emitted so far (to detect them inside && / ||)
-	ptrs     map[types.Object]bool // pointer parameters (receiver included)
-	muts     []types.Object        // pointer parameters written through, in parameter order
-	mutSet   map[types.Object]bool
-	assigned map[types.Object]bool // objects that are re-assigned somewhere (need `let mut`)
-	results  []*types.Var          // kept results
-	dropErr  []bool                // per Go result: dropped (error that is always nil)
-	named    []types.Object        // named results (all of them, in order) or nil
-	lines    []string
-	loop     int
-	inSwitch int
-	tmp      int
+	u          *unitCtx
+	info       *types.Info
+	names      map[types.Object]string
+	used       map[string]bool
+	partial    bool
+	nparts     int                   // number of partial operations emitted so far (to detect them inside && / ||)
+	ptrs       map[types.Object]bool // pointer parameters (receiver included)
+	muts       []types.Object        // pointer parameters written through, in parameter order
+	mutSet     map[types.Object]bool
+	assigned   map[types.Object]bool // objects that are re-assigned somewhere (need `let mut`)
+	results    []*types.Var          // kept results
+	dropErr    []bool                // per Go result: dropped (error that is always nil)
+	named      []types.Object        // named results (all of them, in order) or nil
+	lines      []string
+	loop       int
+	inSwitch   int
+	tmp        int
+	loopVars   map[types.Object]bool // variables of the enclosing range/for loops (immutable inside the body)
+	loopBodies []*ast.BlockStmt
+	aliasInd   int
+	alias      map[types.Object]ast.Expr // `p := &s[i]`: p stands for the element s[i] (notes/go2lean.md "Aliases")
 	// block mode
 	block   bool
 	inside  map[types.Object]bool // objects declared inside the block
@@ -559,6 +563,14 @@ func (c *fnCtx) expr(e ast.Expr) string {
 		if obj == nil {
 			obj = c.info.Defs[x]
 		}
+		if target, ok := c.alias[obj]; ok {
+			// the bounds check was made where the alias was defined (`p := &s[i]` panics there, and only there): reading
+			// through it again cannot panic, so it does not count as a panicking operation under && / ||
+			n := c.nparts
+			t := c.expr(target)
+			c.nparts = n
+			return t
+		}
 		if n, ok := c.names[obj]; ok {
 			return n
 		}
@@ -573,6 +585,9 @@ func (c *fnCtx) expr(e ast.Expr) string {
 		if id, ok := unparen(x.X).(*ast.Ident); ok {
 			if obj := c.info.Uses[id]; obj != nil && c.ptrs[obj] {
 				return c.names[obj]
+			}
+			if target, ok := c.alias[c.info.Uses[id]]; ok {
+				return c.expr(target)
 			}
 		}
 		if n, ok := c.flatFor(x); ok {
@@ -637,6 +652,9 @@ func (c *fnCtx) expr(e ast.Expr) string {
 			_, signed, ok := intKind(c.info.TypeOf(e))
 			if !ok {
 				c.fail(e, "slice bound of type %s", c.info.TypeOf(e))
+			}
+			if cv := c.info.Types[e].Value; cv != nil && !strings.HasPrefix(cv.ExactString(), "-") {
+				return cv.ExactString()
 			}
 			if signed {
 				c.part()
